@@ -855,12 +855,12 @@ theorem clearUnused_spec (b : BitSet) (h : b.size ≤ 64 * b.words.length) :
 
 /-- `truncate(n)` keeps the invariant and is `List.take` on the bits -/
 theorem truncate_spec (b : BitSet) (n : Nat) (hwf : WF b) :
-    ∃ b', truncate b n = some b' ∧ WF b' ∧ b'.size = min b.size n ∧ b'.cap = b.cap ∧
+    ∃ b', truncate b n = some b' ∧ WF b' ∧ b'.size = min b.size n ∧ b'.cap = b.cap ∧ b'.data = b.data ∧
       bits b' = (bits b).take n := by
   have hsz : min b.size n ≤ 64 * b.words.length := by have := hwf.cap_eq; have := hwf.size_le; omega
   obtain ⟨ws, h1, h2, h3⟩ := clearUnused_spec { b with size := min b.size n } hsz
   refine ⟨{ b with words := ws, size := min b.size n }, h1,
-    ⟨by simp [h2]; exact hwf.cap_eq, by have := hwf.size_le; simp; omega, ?_⟩, rfl, rfl, ?_⟩
+    ⟨by simp [h2]; exact hwf.cap_eq, by have := hwf.size_le; simp; omega, ?_⟩, rfl, rfl, rfl, ?_⟩
   · intro j hj1 hj2
     simp only at hj1 hj2 h3 ⊢
     rw [h3, if_pos ⟨hj1, hj2⟩]
@@ -877,7 +877,7 @@ example : truncate { words := [0xFF#64, 0#64], size := 8, cap := 128 } 3
 
 /-- `clear_all()` -/
 theorem clearAll_spec (b : BitSet) (hwf : WF b) :
-    ∃ b', clearAll b = some b' ∧ WF b' ∧ b'.size = b.size ∧ b'.cap = b.cap ∧
+    ∃ b', clearAll b = some b' ∧ WF b' ∧ b'.size = b.size ∧ b'.cap = b.cap ∧ b'.data = b.data ∧
       bits b' = List.replicate b.size false := by
   have hwp := wordsPerBits_bounds b.size
   have hn : wordsPerBits b.size ≤ b.words.length := by
@@ -887,7 +887,7 @@ theorem clearAll_spec (b : BitSet) (hwf : WF b) :
     intro j hj
     rw [bitAt_append, List.length_replicate, if_pos hj, bitAt_replicate, if_pos hj]; simp
   refine ⟨{ b with words := List.replicate (wordsPerBits b.size) 0#64 ++ b.words.drop (wordsPerBits b.size) },
-    by simp only [clearAll, hn, if_true], ⟨?_, hwf.size_le, ?_⟩, rfl, rfl, ?_⟩
+    by simp only [clearAll, hn, if_true], ⟨?_, hwf.size_le, ?_⟩, rfl, rfl, rfl, ?_⟩
   · simp only [List.length_append, List.length_replicate, List.length_drop]; have := hwf.cap_eq; omega
   · intro j _ hj2; exact hb j hj2
   · unfold bits
@@ -902,7 +902,7 @@ example : clearAll { words := [0xFF#64, 0x1#64, 0x5#64], size := 65, cap := 192 
 
 /-- `fill_all()` -/
 theorem fillAll_spec (b : BitSet) (hwf : WF b) :
-    ∃ b', fillAll b = some b' ∧ WF b' ∧ b'.size = b.size ∧ b'.cap = b.cap ∧
+    ∃ b', fillAll b = some b' ∧ WF b' ∧ b'.size = b.size ∧ b'.cap = b.cap ∧ b'.data = b.data ∧
       bits b' = List.replicate b.size true := by
   have hwp := wordsPerBits_bounds b.size
   have hn : wordsPerBits b.size ≤ b.words.length := by
@@ -914,7 +914,7 @@ theorem fillAll_spec (b : BitSet) (hwf : WF b) :
     { b with words := List.replicate (wordsPerBits b.size) ones ++ b.words.drop (wordsPerBits b.size) }
     (by simp only [hlen]; have := hwf.cap_eq; have := hwf.size_le; omega)
   simp only at h1 h2 h3
-  refine ⟨{ b with words := ws }, by simp only [fillAll, hn, if_true]; exact h1, ⟨?_, hwf.size_le, ?_⟩, rfl, rfl, ?_⟩
+  refine ⟨{ b with words := ws }, by simp only [fillAll, hn, if_true]; exact h1, ⟨?_, hwf.size_le, ?_⟩, rfl, rfl, rfl, ?_⟩
   · simp only [h2, hlen]; exact hwf.cap_eq
   · intro j hj1 hj2
     simp only at hj1 hj2 ⊢
@@ -1000,7 +1000,7 @@ theorem WF.bit_ge {o : BitSet} (h : WF o) (j : Nat) (h1 : o.size ≤ j) (h2 : j 
 
 /-- `and_not(other)` -/
 theorem andNot_spec (b other : BitSet) (hb : WF b) (ho : WF other) :
-    ∃ b', andNot b other = some b' ∧ WF b' ∧ b'.size = b.size ∧ b'.cap = b.cap ∧
+    ∃ b', andNot b other = some b' ∧ WF b' ∧ b'.size = b.size ∧ b'.cap = b.cap ∧ b'.data = b.data ∧
       bits b' = List.zipWith (fun x y => x && !y) (bits b)
         ((bits other ++ List.replicate (b.size - other.size) false).take b.size) := by
   have hn1 := wordsPerBits_mono (Nat.min_le_left b.size other.size)
@@ -1012,7 +1012,7 @@ theorem andNot_spec (b other : BitSet) (hb : WF b) (ho : WF other) :
     (by intro x y m hm; simp [hm]) (wordsPerBits (min b.size other.size)) b.words other.words
     (Nat.le_trans hn1 hb.words_len) (Nat.le_trans hn2 ho.words_len)
   refine ⟨{ b with words := ws }, by simp [andNot, h1], ⟨by simp only [h2]; exact hb.cap_eq, hb.size_le, ?_⟩,
-    rfl, rfl, ?_⟩
+    rfl, rfl, rfl, ?_⟩
   · intro j hj1 hj2
     simp only at hj1 hj2 ⊢
     rw [h3, hb.tail_zero j hj1 hj2]; simp
@@ -1034,7 +1034,7 @@ example : andNot { words := [0xFF#64], size := 8, cap := 64 } { words := [0x0F#6
 
 /-- `or_(other)` -/
 theorem or_spec (b other : BitSet) (hb : WF b) (ho : WF other) :
-    ∃ b', or_ b other = some b' ∧ WF b' ∧ b'.size = b.size ∧ b'.cap = b.cap ∧
+    ∃ b', or_ b other = some b' ∧ WF b' ∧ b'.size = b.size ∧ b'.cap = b.cap ∧ b'.data = b.data ∧
       bits b' = List.zipWith (fun x y => x || y) (bits b)
         ((bits other ++ List.replicate (b.size - other.size) false).take b.size) := by
   have hn1 := wordsPerBits_mono (Nat.min_le_left b.size other.size)
@@ -1049,7 +1049,7 @@ theorem or_spec (b other : BitSet) (hb : WF b) (ho : WF other) :
     (by simp only [h2]; have := hb.cap_eq; have := hb.size_le; omega)
   simp only at g1 g2 g3
   refine ⟨{ b with words := ws' }, by simp only [or_, h1]; exact g1,
-    ⟨by simp only [g2, h2]; exact hb.cap_eq, hb.size_le, ?_⟩, rfl, rfl, ?_⟩
+    ⟨by simp only [g2, h2]; exact hb.cap_eq, hb.size_le, ?_⟩, rfl, rfl, rfl, ?_⟩
   · intro j hj1 hj2
     simp only at hj1 hj2 ⊢
     rw [g3, if_pos ⟨hj1, hj2⟩]
@@ -1071,7 +1071,7 @@ example : or_ { words := [0x01#64], size := 4, cap := 64 } { words := [0x3A#64],
 
 /-- `and_(other)` -/
 theorem and_spec (b other : BitSet) (hb : WF b) (ho : WF other) :
-    ∃ b', and_ b other = some b' ∧ WF b' ∧ b'.size = b.size ∧ b'.cap = b.cap ∧
+    ∃ b', and_ b other = some b' ∧ WF b' ∧ b'.size = b.size ∧ b'.cap = b.cap ∧ b'.data = b.data ∧
       bits b' = List.zipWith (fun x y => x && y) (bits b)
         ((bits other ++ List.replicate (b.size - other.size) false).take b.size) := by
   have hw1 := wordsPerBits_bounds b.size
@@ -1109,7 +1109,7 @@ theorem and_spec (b other : BitSet) (hb : WF b) (ho : WF other) :
   refine ⟨{ b with words := (ws.take (min (wordsPerBits b.size) (wordsPerBits other.size)) ++
       List.replicate (wordsPerBits b.size - min (wordsPerBits b.size) (wordsPerBits other.size)) 0#64 ++
       ws.drop (wordsPerBits b.size)) },
-    by simp only [and_, h1, h2, hl1, if_true], ⟨?_, hb.size_le, ?_⟩, rfl, rfl, ?_⟩
+    by simp only [and_, h1, h2, hl1, if_true], ⟨?_, hb.size_le, ?_⟩, rfl, rfl, rfl, ?_⟩
   · simp only [List.length_append, List.length_take, List.length_replicate, List.length_drop, h2]
     have := hb.cap_eq; omega
   · intro j hj1 hj2
@@ -1162,7 +1162,7 @@ theorem pattern_shift_getLsbD (v : Bool) (sb m : Nat) (hm : m < 64) :
 /-- `append(value)` when no reallocation is needed (`size < capacity`): `snoc` on the bits.
 PARTIAL: the `_append` slow path (`size = capacity`, reallocation through the arena) is not covered. -/
 theorem append_spec_partial (a : Arena.State) (b : BitSet) (v : Bool) (hwf : WF b) (hlt : b.size < b.cap) :
-    ∃ b', append a b v = some (a, b', Err.ok) ∧ WF b' ∧ b'.size = b.size + 1 ∧ b'.cap = b.cap ∧
+    ∃ b', append a b v = some (a, b', Err.ok) ∧ WF b' ∧ b'.size = b.size + 1 ∧ b'.cap = b.cap ∧ b'.data = b.data ∧
       bits b' = bits b ++ [v] := by
   have hcap := hwf.cap_eq
   have hq : b.size / 64 < b.words.length := by omega
@@ -1197,7 +1197,7 @@ theorem append_spec_partial (a : Arena.State) (b : BitSet) (v : Bool) (hwf : WF 
         · rw [if_neg hlt2, hz m hm (by omega)]; simp [hmb]
   refine ⟨{ b with words := b.words.set (b.size / 64) (if b.size % 64 = 0 then boolWord v <<< (b.size % 64)
         else b.words[b.size / 64] ||| (boolWord v <<< (b.size % 64))), size := b.size + 1 },
-    by simp only [append, hnge, if_false, hw], ⟨by simp; exact hcap, by simp; omega, ?_⟩, rfl, rfl, ?_⟩
+    by simp only [append, hnge, if_false, hw], ⟨by simp; exact hcap, by simp; omega, ?_⟩, rfl, rfl, rfl, ?_⟩
   · intro j hj1 hj2
     simp only at hj1 hj2 ⊢
     have hjq : j / 64 = b.size / 64 := by unfold wordsPerBits at hj2; omega
@@ -1298,11 +1298,11 @@ PARTIAL: the reallocating branch (`new_size > capacity`) is not covered (needs f
 allocated size a multiple of 8, `≥` the request and `< 2^29` so that `uint32_t(allocated * 8)` does not wrap). -/
 theorem resizeI_spec_partial (a : Arena.State) (b : BitSet) (newSize ideal : Nat) (v : Bool) (hwf : WF b)
     (hcap : newSize ≤ b.cap) (hnew : newSize < Arena.u32) :
-    ∃ b', resizeI a b newSize ideal v = some (a, b', Err.ok) ∧ WF b' ∧ b'.size = newSize ∧ b'.cap = b.cap ∧
+    ∃ b', resizeI a b newSize ideal v = some (a, b', Err.ok) ∧ WF b' ∧ b'.size = newSize ∧ b'.cap = b.cap ∧ b'.data = b.data ∧
       bits b' = (bits b).take newSize ++ List.replicate (newSize - b.size) v := by
   by_cases hle : newSize ≤ b.size
-  · obtain ⟨b', h1, h2, h3, h4, h5⟩ := truncate_spec b newSize hwf
-    refine ⟨b', by rw [resizeI_shrink a b newSize ideal v hle, h1]; rfl, h2, by omega, h4, ?_⟩
+  · obtain ⟨b', h1, h2, h3, h4, hdata, h5⟩ := truncate_spec b newSize hwf
+    refine ⟨b', by rw [resizeI_shrink a b newSize ideal v hle, h1]; rfl, h2, by omega, h4, hdata, ?_⟩
     have : newSize - b.size = 0 := by omega
     rw [h5, this]; simp
   · have hce := hwf.cap_eq
@@ -1350,7 +1350,7 @@ theorem resizeI_spec_partial (a : Arena.State) (b : BitSet) (newSize ideal : Nat
     obtain ⟨ws1, hr, hl1, hb1⟩ := hstep
     obtain ⟨W, hg, hlW, hbW⟩ := growFinish_spec a b ws1 (wordsPerBits b.size) newSize v (by omega) hmono hnew
     refine ⟨{ b with words := W, size := newSize }, by rw [hr, hg], ⟨by simp only [hlW, hl1]; exact hce, hcap, ?_⟩,
-      rfl, rfl, ?_⟩
+      rfl, rfl, rfl, ?_⟩
     · intro j hj1 hj2
       simp only at hj1 hj2 ⊢
       rw [hbW, if_pos ⟨hj1, hj2⟩]
@@ -1377,10 +1377,10 @@ example : (resizeI (Arena.init 1024 0) { words := [0x5#64, 0#64, 0x9#64], size :
 PARTIAL: the reallocating branch is not covered (same missing arena facts as `resizeI_spec_partial`). -/
 theorem copyFrom_spec_partial (a : Arena.State) (b other : BitSet) (hb : WF b) (ho : WF other)
     (hcap : other.size ≤ b.cap) :
-    ∃ b', copyFrom a b other = some (a, b', Err.ok) ∧ WF b' ∧ b'.size = other.size ∧ b'.cap = b.cap ∧
+    ∃ b', copyFrom a b other = some (a, b', Err.ok) ∧ WF b' ∧ b'.size = other.size ∧ b'.cap = b.cap ∧ b'.data = b.data ∧
       bits b' = bits other := by
   by_cases h0 : other.size = 0
-  · refine ⟨{ b with size := 0 }, by simp [copyFrom, h0], ⟨hb.cap_eq, Nat.zero_le _, ?_⟩, h0.symm, rfl, ?_⟩
+  · refine ⟨{ b with size := 0 }, by simp [copyFrom, h0], ⟨hb.cap_eq, Nat.zero_le _, ?_⟩, h0.symm, rfl, rfl, ?_⟩
     · intro j _ hj2; simp [wordsPerBits] at hj2
     · simp [bits, bitsList, h0]
   · have hce := hb.cap_eq
@@ -1397,7 +1397,7 @@ theorem copyFrom_spec_partial (a : Arena.State) (b other : BitSet) (hb : WF b) (
       · rw [if_neg c, if_neg c]; congr 1; omega
     refine ⟨{ b with words := other.words.take (wordsPerBits other.size) ++ b.words.drop (wordsPerBits other.size),
                      size := other.size },
-      by simp only [copyFrom, h0, hncap, if_false, hl1, hl2, and_self, if_true], ⟨?_, hcap, ?_⟩, rfl, rfl, ?_⟩
+      by simp only [copyFrom, h0, hncap, if_false, hl1, hl2, and_self, if_true], ⟨?_, hcap, ?_⟩, rfl, rfl, rfl, ?_⟩
     · simp only [List.length_append, List.length_take, List.length_drop]; omega
     · intro j hj1 hj2
       simp only at hj1 hj2 ⊢
